@@ -89,7 +89,7 @@ void MD_Channel::seek(int ticks)
 	clear_update_flag(Event::PAN);
 	update_state();
 
-	note_pitch = ((int16_t) get_last_note() + (int16_t) get_var(Event::TRANSPOSE))<<8;
+	note_pitch = ((int16_t) get_last_note() + (int16_t) get_var(Event::TRANSPOSE)) * 256;
 	note_pitch += get_var(Event::DETUNE);
 }
 
@@ -276,7 +276,7 @@ void MD_Channel::write_event()
 			driver->loop_trigger = true;
 			break;
 		case Event::NOTE:
-			note_pitch = ((int16_t) event.param + (int16_t) get_var(Event::TRANSPOSE))<<8;
+			note_pitch = ((int16_t) event.param + (int16_t) get_var(Event::TRANSPOSE)) * 256;
 			note_pitch += get_var(Event::DETUNE);
 			key_on_flag = true;
 			if(!slur_flag)
@@ -405,7 +405,7 @@ void MD_Channel::update_pitch()
 	{
 		porta_value = note_pitch;
 	}
-	pitch = porta_value + (ins_transpose<<8);
+	pitch = porta_value + (ins_transpose * 256);
 	if(get_var(Event::PITCH_ENVELOPE))
 	{
 		if(key_on_flag || !pitch_env_data || get_update_flag(Event::PITCH_ENVELOPE))
